@@ -139,7 +139,14 @@ def _spacing(job):
     if not (len(lin) == len(l0) and all(a["n"] == b["n"] for a, b in zip(lin, l0))):
         lin = l0                      # the input's lists do not align with the output's: fall back to the preserve reading
     lists = [dict(n=a["n"], single=a["single"], t0=a["tight"], t1=b["tight"], tin=c["tight"]) for a, b, c in zip(l0, l1, lin)] if aligned else []
-    return dict(o0=o0, o1=o1, same_nonblank=same and aligned, gaps=gaps, lists=lists)
+    # the modes are documented by their names ("preserve" / "loose" / "tight"; the config file passes them on as plain strings): the plain
+    # string must select the same mode as the enum member
+    try:
+        from flowmark import reformat_text
+        spelled = reformat_text(x, **dict(base, list_spacing=mode)) == o1 and reformat_text(x, **dict(base, list_spacing="preserve")) == o0
+    except BaseException:  # noqa: BLE001
+        spelled = False
+    return dict(o0=o0, o1=o1, same_nonblank=same and aligned, gaps=gaps, lists=lists, spelled=spelled)
 
 
 def _cleanups(job):
@@ -183,6 +190,8 @@ def run(tier: str) -> int:
             chk.violation("NoException", dict(doc=job[0], opts=job[2], mode=job[3], exc=r["exc"]))
             continue
         tid += 1
+        if not r["spelled"]:
+            chk.violation("ModeSelectedByName", dict(doc=job[0], opts=job[2], mode=job[3], why="list_spacing given as the plain string formats differently from the enum member"))
         traces.append(dict(id=tid, kind="spacing", mode=job[3], same_nonblank=r["same_nonblank"], gaps=r["gaps"], lists=r["lists"]))
         metas[tid] = dict(kind="spacing", doc=job[0], src=job[1], opts=job[2], mode=job[3], preserve_output=r["o0"], mode_output=r["o1"], lists=r["lists"])
         if r["o0"] != r["o1"]:
